@@ -402,15 +402,33 @@ theorem unit_ids_attributed (env : EnvT) (R : List Rule) (q : Req) (draw : Rule 
     rw [e] at h
     exact seqOps_units env q draw _ c ops [] w u h hwu
 
-/-- Every `UnitSource` is a matched rule. -/
+/-- The unit ids a rule can contribute: its reset/stop, redirect and log units, the ids of its header filters
+(the `Location` filter carries the redirect unit) and of its text body filters. -/
+def unitsOfRule (q : Req) (r : Rule) : List String :=
+  r.configurationResetUnitId.toList ++ r.redirectUnitId.toList ++ r.configurationLogUnitId.toList ++
+    (ruleHeaderFilters q r).filterMap (·.filter.id) ++
+    (ruleBodyFilters r).filterMap fun f => match f.filter with | .text tf => tf.id | .html _ => none
+
+/-- Every `UnitSource` is a unit id OF A MATCHED RULE: some `r ∈ R` has `u` among its own unit ids. -/
 theorem unit_source_matched (R : List Rule) (q : Req) (draw : Rule → Nat) (c : Nat) (u : String)
-    (h : UnitSource q draw (sortRules R) c u) : ∃ r ∈ R, True := by
+    (h : UnitSource q draw (sortRules R) c u) : ∃ r ∈ R, u ∈ unitsOfRule q r := by
+  unfold unitsOfRule
   cases h with
-  | config r hr _ _ _ => exact ⟨r, (sortRules_perm R).subset hr, trivial⟩
-  | status r hr _ _ => exact ⟨r, (contributing_mem R q draw r hr).1, trivial⟩
-  | header r f hr _ _ _ => exact ⟨r, (contributing_mem R q draw r hr).1, trivial⟩
-  | body r tf hr _ _ _ => exact ⟨r, (contributing_mem R q draw r hr).1, trivial⟩
-  | log r hr _ _ => exact ⟨r, (contributing_mem R q draw r hr).1, trivial⟩
+  | config r hr _ _ hcu =>
+    exact ⟨r, (sortRules_perm R).subset hr, by simp [hcu]⟩
+  | status r hr _ hru =>
+    exact ⟨r, (contributing_mem R q draw r hr).1, by simp [hru]⟩
+  | header r f hr _ hf hid =>
+    refine ⟨r, (contributing_mem R q draw r hr).1, ?_⟩
+    simp only [List.mem_append, List.mem_filterMap]
+    exact .inl (.inr ⟨f, hf, hid⟩)
+  | body r tf hr _ hf hid =>
+    refine ⟨r, (contributing_mem R q draw r hr).1, ?_⟩
+    obtain ⟨f, hf, hfe⟩ := hf
+    simp only [List.mem_append, List.mem_filterMap]
+    exact .inr ⟨f, hf, by simp [hfe, hid]⟩
+  | log r hr _ hlu =>
+    exact ⟨r, (contributing_mem R q draw r hr).1, by simp [hlu]⟩
 
 /-! ### `squash` and `diff` -/
 
